@@ -89,7 +89,8 @@ def handlers : List (String × (List String → String)) := [
   ("doc", Condense.handleDoc),
   ("pieces", Condense.handlePieces),
   ("javadoc", Mask.handleJavadoc), ("gopar", Mask.handleGoPar), ("jdmark", Mask.handleJdMark),
-  ("cfgp", Effects.handleCfgp), ("effc", Effects.handleEffc)
+  ("cfgp", Effects.handleCfgp), ("effc", Effects.handleEffc),
+  ("dfp", DictIO.handleDfp)
 ]
 
 def handle (line : String) : String :=
